@@ -18,8 +18,8 @@ EXPLANATION = (
     "and compared with the specification's ladder (as an order: tiers, associativity, arity) and with the C-math -> "
     "numpy name map; every registered method must be an elementwise numpy ufunc or an in-package indicator returning "
     "floats; the shunting-yard pop rule is decided exhaustively over all orderings of (associativity, 0, p, p_top); "
-    "operand order in parse/evaluate; stack safety and the rejection checks of infix_to_postfix/parse (arity x depth "
-    "enumeration); variable resolution and name-clash checks of Function.membership; infix_to_postfix and parse interpreted "
+    "operand order in parse/evaluate; variable resolution of Function.membership decided by interpreting the construction of the "
+    "variable dictionary on 12 (engine variables, own variables) configurations (W3); infix_to_postfix and parse interpreted "
     "abstractly as pushdown transducers over the token classes of the extracted table and compared with the shunting-yard / "
     "tree-building reference on every configuration up to a depth bound (PD, PD2); a named constant (arity-0 function) is popped "
     "by every binary operator (T1 constant)"
